@@ -173,6 +173,14 @@ __CPROVER_assigns(nitro_exc, g_at_next, g_at_hits, g_at_other)
 __CPROVER_ensures(nitro_exc == 0)                                                                 /*@ matching_never_raises */
 __CPROVER_ensures(__CPROVER_return_value == M_BASE(self, &arg->arg_));                            /*@ matches_iff_letter_or_long_name */
 
+/* a.compare(2, b.size(), b) == 0: b is a prefix of a without its first two bytes.  Decided where the abstraction decides it (equal texts; lengths that
+ * exclude a prefix), arbitrary otherwise - sound for any use, and a use as an equality test fails its contract on the longer-token case */
+static inline nbool ostr_prefix_at2_is(const struct ostr *a, const struct ostr *b)
+{
+    if (a->name_sub2_id == b->id) return 1;
+    if (T_NAMELEN(a) < 2 || T_NAMELEN(a) - 2 <= b->len) return 0;       /* shorter, or equally long but a different text */
+    return nondet_nbool();
+}
 /* ---- toggle ---- */
 #define M_NO(t, a) ((a)->name_has_no && (a)->name_sub5_id == (t)->b.name_.id)                       /* --no-<name> */
 #define M_TOGGLE(t, a) (M_NO(t, a) || M_BASE(&(t)->b, a))
